@@ -34,6 +34,13 @@ pub proof fn lemma_prefix_full(w0: Seq<u8>, full: Seq<u8>)
     assert(w0 + full.subrange(0, 0) =~= w0);
 }
 
+pub proof fn lemma_skip_skip(s: Seq<u8>, a: int, b: int)
+    requires 0 <= a, 0 <= b, a + b <= s.len(),
+    ensures s.skip(a).skip(b) == s.skip(a + b),
+{
+    assert(s.skip(a).skip(b) =~= s.skip(a + b));
+}
+
 #[verifier::external_type_specification]
 #[verifier::external_body]
 pub struct ExIoError(std::io::Error);
@@ -45,8 +52,12 @@ pub trait ExWrite {
 
     spec fn written(&self) -> Seq<u8>;
 
+    /// a sink that cannot fail (Vec<u8>); arbitrary sinks leave this false
+    spec fn infallible(&self) -> bool;
+
     fn write_all(&mut self, buf: &[u8]) -> (r: std::io::Result<()>)
         ensures
+            old(self).infallible() ==> r is Ok && final(self).infallible(),
             r is Ok ==> final(self).written() == old(self).written() + buf@,
             r is Err ==> wrote_prefix(old(self).written(), final(self).written(), buf@),
     ;
